@@ -16,7 +16,7 @@ FLAGS_RAYON = " -Zmiri-tree-borrows -Zmiri-ignore-leaks"  # crossbeam-epoch need
 
 PLAN = {
     # prop: (mode, quick (workload seeds, miri seeds per workload), thorough)
-    "C02": ("checker", (3, 4), (24, 16)),
+    "C02": ("checker", (2, 4), (24, 16)),
     "C05": ("checker", (2, 4), (12, 16)),
     "C10": ("vm", (8, 8), (120, 16)),
     "C20": ("lock", (6, 8), (120, 16)),
